@@ -183,9 +183,69 @@ def run_recv(job):
     return {'tid': job['id'], 'channel': 'recv', 'hs': False, 'bits': job['bits'], 'sizes': [len(m) for m in msgs], 'hslen': 0, 'steps': steps}
 
 
+OTHER = 5000000
+
+
+def run_pair(job):
+    '''two connections of the same protocol class served by one process, their chunks arriving interleaved:
+    each connection must deliver exactly its own messages (no framing state is shared between connections)'''
+    dawgie.context.fsm = Fsm()
+    channel, lens = job['channel'], job['lens']
+    conns = []
+    for k in range(2):
+        delivered = []
+        proto = make_protocol(channel, delivered, False)
+        msgs = app_messages(channel, lens if k == 0 else list(reversed(lens)))
+        app = b''.join(msgs)
+        if 'chunks' in job and k == 0:
+            a_abs = [x for ln in lens for x in (4, ln)]
+            a_real = [x for m in msgs for x in (4, len(m) - 4)]
+            c, bounds = 0, []
+            for n in job['chunks']:
+                c += n
+                bounds.append(c)
+            cuts = sorted({map_pos(b, a_abs, a_real) for b in bounds})
+        else:
+            cuts = sorted(job.get('cuts', []))
+        if k == 1:
+            # the other connection is cut where the first one is not: in the middle of every length prefix and body
+            cuts = sorted({2, 4 + (len(msgs[0]) - 4) // 2, len(msgs[0]) + 2})
+        cuts = [x for x in cuts if 0 < x < len(app)]
+        pieces, prev = [], 0
+        for x in cuts + [len(app)]:
+            pieces.append(app[prev:x])
+            prev = x
+        conns.append({'proto': proto, 'delivered': delivered, 'msgs': msgs, 'pieces': pieces, 'fed': 0, 'exc': '',
+                      'steps': [{'fed': 0, 'delivered': [], 'closed': False, 'closed_by_app': False, 'last': False, 'exc': ''}]})
+    turn = 0
+    while any(c['pieces'] for c in conns):
+        c = conns[turn % 2]
+        turn += 1
+        if not c['pieces']:
+            continue
+        data = c['pieces'].pop(0)
+        if not c['proto'].transport.closed:
+            try:
+                c['proto'].dataReceived(data)
+            except Exception as ex:  # pylint: disable=broad-except
+                c['exc'] = type(ex).__name__
+            c['fed'] += len(data)
+        closed = c['proto'].transport.closed
+        by_app = bool(channel == 'db' and closed and c['delivered'] and len(c['delivered']) == len(lens))
+        # the second connection numbers its messages like the first (1..n in ITS order of sending)
+        c['steps'].append({'fed': c['fed'], 'delivered': list(c['delivered']), 'closed': closed, 'closed_by_app': by_app, 'last': False, 'exc': c['exc']})
+    out = []
+    for k, c in enumerate(conns):
+        c['steps'][-1]['last'] = True
+        out.append({'tid': job['id'] + (OTHER if k else 0), 'channel': channel, 'hs': False, 'bits': job['bits'], 'sizes': [len(m) for m in c['msgs']], 'hslen': 0, 'steps': c['steps']})
+    return out
+
+
 def run_job(job):
     if job['channel'] == 'recv':
         return run_recv(job)
+    if job.get('pair'):
+        return run_pair(job)
     dawgie.context.fsm = Fsm()
     channel, hs, bits, lens = job['channel'], job['hs'], job['bits'], job['lens']
     delivered = []
@@ -300,7 +360,9 @@ def main():
     logging.disable(logging.CRITICAL)
     with open(sys.argv[2], 'wt', encoding='utf-8') as out:
         for job in jobs:
-            out.write(json.dumps(run_job(job)) + '\n')
+            res = run_job(job)
+            for t in res if isinstance(res, list) else [res]:
+                out.write(json.dumps(t) + '\n')
 
 
 if __name__ == '__main__':
